@@ -224,6 +224,9 @@ func ErrClass(err error) string {
 	if errors.As(err, &de) {
 		return "dberror"
 	}
+	if strings.Contains(err.Error(), rosmar.ErrBucketClosed.Error()) {
+		return "closed" // wrapped with %v by NamedDataStore
+	}
 	if strings.Contains(err.Error(), "database is closed") {
 		return "dbclosed"
 	}
